@@ -554,7 +554,11 @@ func runC20(rc *RunCtx) {
 		case injOnly:
 			m.StepInjectedFailure()
 		default:
-			switch T.Pick("c20.kind", 5, 3, 2, 2) {
+			switch T.Pick("c20.kind", 5, 3, 2, 2, 2) {
+			case 4:
+				// inputs with garbled NUT-10 secrets: whatever the mint makes of them, the answer
+				// has the NUT shape (the shape validator looks at every exchange)
+				c06LockSecretMutants(rc, m, func() string { return "" }, i)
 			case 0:
 				m.Step(T.Pick("step.kind", weights...), true)
 			case 1:
